@@ -139,6 +139,16 @@ def analyse(case, res):
                 fn = [l.split(", in ")[-1].strip() for l in e.get("traceback", "").splitlines() if l.strip().startswith("File ") and "/nessai/" in l][-1:]
                 probs.append((f"resumed-run-raises:{e['error'].split(':')[0]}@{fn[0] if fn else '?'}", dict(segment=si, error=e["error"][:200])))
             elif e["ev"] == "done":
+                if "run_wall" in e:
+                    # the segment that finishes the run: the sampling time accounted in it cannot be much less than the wall time of its sampling loop (time lost, e.g. a
+                    # clock restarted without adding what had elapsed)
+                    stats["timing_checks"] = stats.get("timing_checks", 0) + 1
+                    acc = e["sampling_time"] - start["sampling_time"]
+                    stats.setdefault("accounted_over_run_wall", []).append(round(acc / max(e["run_wall"], 1e-9), 3))
+                    if acc > 1.02 * e["run_wall"] + 0.2:
+                        probs.append(("accounting:sampling_time-exceeds-the-wall-time-of-the-sampling-loop-of-the-final-segment", dict(segment=si, accounted_in_segment=acc, loop_wall_without_checkpoint_writes=e["run_wall"])))
+                    if acc < 0.8 * e["run_wall"] - 0.3:
+                        probs.append(("accounting:sampling_time-far-below-the-wall-time-of-the-sampling-loop-of-the-final-segment", dict(segment=si, accounted_in_segment=acc, run_wall=e["run_wall"])))
                 if e["counter"] - start["counter"] != e["pts"] or e["reported_total"] != e["counter"]:
                     probs.append(("accounting:final-total-differs-from-calls-at-user-boundary", dict(counter=e["counter"], start=start["counter"], boundary_points=e["pts"], reported=e["reported_total"])))
                 if e["unique_points"] != e["n"]:
@@ -199,6 +209,7 @@ def main():
         cases = [c for c in cases if chk.args.only in c["variant"]]
     res = run_cases(cases, "checks.c12:history_worker", chk.scratch, nproc=chk.args.nproc, timeout=2000)
     allowed_total = {}
+    ratios = []
     for c, r in zip(cases, res):
         small = {k: c[k] for k in ("idx", "sampler", "variant", "model", "kwargs", "schedule", "kills", "callback")}
         if "segs" not in r or r.get("timeout"):
@@ -214,6 +225,7 @@ def main():
         chk.count("state_fields_compared", st["fields_compared"])
         chk.count("histories_completed", 1 if st.get("done") else 0)
         chk.count("timing_bounds_checked", st.get("timing_checks", 0))
+        ratios += st.get("accounted_over_run_wall", [])
         if c.get("callback"):
             chk.count("restores_compared_through_checkpoint_callback_and_resume_data", st["restores"])
         for k, v in st["allowed_kinds"].items():
@@ -233,6 +245,7 @@ def main():
                 key = "checkpoint-on-training:resumed-from-mid-iteration-checkpoint"
             chk.violation("C12:" + key, f"history {c['idx']} {c['sampler']}/{c['variant']} schedule={c['schedule']} kills={c['kills']} exits={r['exits']}: {detail}", small)
     chk.extra["allowed_differences_seen"] = allowed_total
+    chk.extra["final_segment_accounted_sampling_time_over_run_wall_min_median"] = [float(min(ratios)), float(sorted(ratios)[len(ratios) // 2])] if ratios else None
     chk.assumptions += ["fields allowed to differ between the pickled and the restored object are listed with reasons in vlib/digest.py (flow weights are outside the property's list)",
                         "kills are os._exit(9) at a likelihood call of the main process (no pool)"]
     chk.finish("seeded kill/resume histories (1-3 kills quick, 1-5 thorough; kill = os._exit(9) at the K-th sampler-attributed likelihood point; checkpoint schedules every 1/7/50 "
